@@ -62,6 +62,8 @@ func c14Fixed() [][]byte {
 		"48910366656561a0036669655a",           // H 1 fee ... Z (truncated variant)
 		"4d13636f6d2e63617563686f2e746573742e43617205636f6c6f720a617175616d6172696e655a",
 		"4300905a", "4f90", "5190", "51ff", "60", "6f", "4fc8ff", "7fffffffff", "58497fffffff", "56004990", "5500", "4d00", "4d90", "4300" + "497fffffff",
+		"71065b696e74333279" + "5191", // typed int list whose element is a list containing itself
+		"7a7a5190", "5751905a", "4851905190" + "5a", "7851" + "90", "79795191", "48790151915a",
 		"4a0000000000000000", "4bffffffff", "4400", "5f", "52ffff", "53ffff61", "42ffff", "62ffff00", "33ff", "2f",
 	} {
 		b, _ := hex.DecodeString(h)
@@ -179,7 +181,7 @@ func (g *c14Gen) next() ([]byte, string) {
 				}
 				what += ":" + t.Kind
 			case "value", "tag":
-				switch g.n(5) {
+				switch g.n(7) {
 				case 0: // tag swap
 					b[t.Start] = interestingTags[g.n(len(interestingTags))]
 					what += ":tagswap"
@@ -196,6 +198,12 @@ func (g *c14Gen) next() ([]byte, string) {
 							return splice(b, t.Start, t.End, m2[t2.Start:t2.End]), what + ":graft"
 						}
 					}
+				case 4: // a back-reference to one of the first containers, bare or inside a fresh list (cycles)
+					k := byte(0x90 + g.n(8))
+					if g.n(2) == 0 {
+						return splice(b, t.Start, t.End, []byte{0x51, k}), what + ":ref"
+					}
+					return splice(b, t.Start, t.End, []byte{0x79, 0x51, k}), what + ":self-ref-list"
 				default: // replace by a ref / huge list header / unknown class
 					repl := [][]byte{{0x51, 0xa0}, {0x58, 'I', 0x7f, 0xff, 0xff, 0xff}, {'O', 0xc8, 0xff}, {0x57}, {'H'}, {'V', 0x00, 'I', 0x7f, 0xff, 0xff, 0xf0}, {'C', 0x01, 'x', 'I', 0x7f, 0xff, 0xff, 0xff}, {0x55, 0x91}, {'M', 0x9f}}
 					return splice(b, t.Start, t.End, repl[g.n(len(repl))]), what + ":hostile-subtree"
@@ -306,11 +314,9 @@ func TestC14(t *testing.T) {
 			}
 			jobs = append(jobs, job{entry: g.n(len(c14Entries)), tm: g.n(3), payload: b, origin: origin})
 		}
-		if err := w.send(jobs); err != nil {
-			w.kill()
-			w, _ = startWorker()
-			continue
-		}
+		// a send error means the worker died while the batch was still being written:
+		// the verdicts it did deliver are read below, the first missing one names the culprit
+		w.send(jobs)
 		for i := 0; i < len(jobs); i++ {
 			j := jobs[i]
 			r.Current(fmt.Sprintf("C14 %s %s %s %x", c14Entries[j.entry], c14TypeMaps[j.tm], j.origin, j.payload))
